@@ -432,6 +432,10 @@ class Parser:
 # locating the functions
 # --------------------------------------------------------------------------------------
 
+# the only cfg an impl carries in the audited sources (`alloc` is implied by the default feature `std`)
+OK_IMPL_CFG = ('cfg ( feature = alloc )',)
+
+
 def find_impl(toks, needle, descr):
     """(open, close) of the body of the one `impl .. { }` whose header text (tokens joined by a
     blank) contains `needle`"""
@@ -445,6 +449,27 @@ def find_impl(toks, needle, descr):
             hdr = [x for _, x in toks[i:j]]
             txt = ' '.join(hdr)
             if needle(txt) if callable(needle) else needle in txt:
+                # attributes directly before the impl: a cfg would make the whole block conditional (and a
+                # differently spelled live copy could exist elsewhere)
+                p = i - 1
+                if p >= 0 and toks[p] == ('id', 'unsafe'):
+                    p -= 1
+                while p >= 0 and toks[p] == ('p', ']'):
+                    depth, q = 0, p
+                    while True:
+                        if toks[q] == ('p', ']'):
+                            depth += 1
+                        elif toks[q] == ('p', '['):
+                            depth -= 1
+                            if depth == 0:
+                                break
+                        q -= 1
+                    if toks[q - 1] != ('p', '#'):
+                        break
+                    if (any(t in (('id', 'cfg'), ('id', 'cfg_attr')) for t in toks[q:p])
+                            and ' '.join(x for _, x in toks[q + 1:p]) not in OK_IMPL_CFG):
+                        err('`%s` is under the attribute #[%s]' % (descr, ' '.join(x for _, x in toks[q + 1:p])))
+                    p = q - 2
                 found.append((j, match_close(toks, j)))
             i = match_close(toks, j) + 1
             continue
